@@ -13,6 +13,9 @@ from sa import dataflow as df
 class AbsInt:
     MAX_DEPTH = 12
     AUG_KEEPS_VALUE = False
+    # True: a bound parameter that the callee re-binds (`state = step(state)`, `rhs = rhs / norm`) takes the re-bound
+    # value in program order, and parameters of an enclosing function seen from a nested one keep their base value
+    ENV_REBINDING = False
 
     def __init__(self, idx):
         self.idx = idx
@@ -121,6 +124,7 @@ class AbsInt:
         def __init__(self, fi, env, depth=0):
             self.fi, self.env, self.depth = fi, env, depth
             self.busy = set()
+            self.pinned = frozenset()
 
     def eval_in(self, fi, expr, env=None, depth=0):
         return self.ev(expr, AbsInt.Ctx(fi, dict(env or {}), depth))
@@ -167,13 +171,21 @@ class AbsInt:
 
     def name(self, name, ctx):
         if name in ctx.env:
-            return ctx.env[name]
+            if not self.ENV_REBINDING or name in ctx.pinned or ctx.fi is None or not df.assignments(ctx.fi.node, into_nested=False).get(name):
+                return ctx.env[name]
         f = ctx.fi
         while f is not None:
             key = (id(f.node), name)
             asg = df.assignments(f.node, into_nested=False).get(name, [])
             a = f.node.args
             params = [x.arg for x in a.posonlyargs + a.args + a.kwonlyargs]
+            if self.ENV_REBINDING:
+                bound = f is ctx.fi and name in ctx.env
+                has_base = bound or name in params
+                base_of = (lambda: ctx.env[name]) if bound else (lambda: self.param(f, name))
+            else:
+                has_base = name in params and f is ctx.fi
+                base_of = lambda: self.param(f, name)  # noqa: E731
             if asg:
                 if key in ctx.busy:
                     return self.cyclic(name)
@@ -182,10 +194,11 @@ class AbsInt:
                     vals = []
                     sub = AbsInt.Ctx(f, ctx.env if f is ctx.fi else {}, ctx.depth + 1)
                     sub.busy = ctx.busy
+                    sub.pinned = ctx.pinned if f is ctx.fi else frozenset()
                     # self-referential re-bindings (`V = lazify(V)`, `x = x[..., None]`) are evaluated on top of
                     # the join of the other bindings
                     selfref = [(v, path, st) for v, path, st in asg if not isinstance(v, ast.AugAssign) and name in df.names_in(v)]
-                    if selfref and len(selfref) < len(asg) + (1 if name in params and f is ctx.fi else 0):
+                    if selfref and len(selfref) < len(asg) + (1 if has_base else 0):
                         plain = [x for x in asg if x not in selfref]
                         base_vals = []
                         for v, path, st in plain:
@@ -196,8 +209,8 @@ class AbsInt:
                                 for p in path:
                                     val = self.index(val, "*" if p == "iter" else p) if p != "with" else val
                             base_vals.append(val)
-                        if name in params and f is ctx.fi:
-                            base_vals.append(self.param(f, name))
+                        if has_base:
+                            base_vals.append(base_of())
                         if base_vals:
                             cur = self.join(base_vals)
                             # straight-line re-bindings replace the value in program order; conditional ones join
@@ -206,6 +219,7 @@ class AbsInt:
                                 env2[name] = cur
                                 sub2 = AbsInt.Ctx(f, env2, ctx.depth + 1)
                                 sub2.busy = ctx.busy
+                                sub2.pinned = sub.pinned | {name}
                                 val = self.ev(v, sub2)
                                 if path is not None:
                                     for p in path:
@@ -229,8 +243,8 @@ class AbsInt:
                                 else:
                                     val = self.index(val, p)
                         vals.append(val)
-                    if name in params and f is ctx.fi:
-                        vals.append(self.param(f, name))
+                    if has_base:
+                        vals.append(base_of())
                     return self.join(vals)
                 finally:
                     ctx.busy.discard(key)
